@@ -5,7 +5,7 @@ from pyvc import tys as T
 F = "maze_dataset/dataset/collected_dataset.py"
 MD = "maze_dataset/dataset/maze_dataset.py"
 REGISTRY.class_files.update({"MazeDatasetCollection": F, "MazeDataset": MD})
-REGISTRY.inlinable.update({(MD, "MazeDataset.__len__"), (MD, "MazeDataset.__getitem__")})
+REGISTRY.inlinable.update({(MD, "MazeDataset.__len__"), (MD, "MazeDataset.__getitem__"), (MD, "MazeDataset.update_self_config")})
 
 # a maze is identified by an opaque identity `uid` ("the very maze at position i")
 MAZE = T.RecT("SolvedMaze", uid=T.Int)
@@ -72,4 +72,42 @@ class coll_mazes:
         f" result[psum({_LENS}, d) + k].uid == self.maze_datasets[d].mazes[k].uid), (0, len(self.maze_datasets)), None)",
     }
     inline = True
+    props = ["C16"]
+
+
+# ------------------------------------------------------------------------------------------- update_self_config
+MCFG = T.RecT("MazeDatasetConfig", n_mazes=T.Int)
+DATASET_C = T.RecT("MazeDataset", cfg=MCFG, mazes=T.ListT(MAZE))
+COLLECTION_C = T.RecT("MazeDatasetCollection", cfg=T.RecT("MazeDatasetCollectionConfig", maze_dataset_configs=T.ListT(MCFG)), maze_datasets=T.ListT(DATASET_C))
+_ND = "len(self.maze_datasets)"
+_KEPT = ("len(self.maze_datasets) == len(entry(self).maze_datasets) and len(self.cfg.maze_dataset_configs) == len(entry(self).cfg.maze_dataset_configs)"
+         " and forall(lambda j: len(self.maze_datasets[j].mazes) == len(entry(self).maze_datasets[j].mazes)"
+         " and forall(lambda t: self.maze_datasets[j].mazes[t].uid == entry(self).maze_datasets[j].mazes[t].uid, (0, len(self.maze_datasets[j].mazes))), (0, len(self.maze_datasets)))")
+
+
+@contract(F, "MazeDatasetCollection.update_self_config")
+class coll_update_self_config:
+    """after update_self_config the reported maze count is the collection's length, every member's own configuration and every member configuration the
+    collection holds report that member's length, and no maze moved.  Value semantics (A-alias): the member configurations of the collection and the
+    members' own configurations are treated as separate objects - the case in which the 2e1b455 defect showed; when they are shared both writes coincide."""
+    params = dict(self=COLLECTION_C)
+    requires = ["len(self.cfg.maze_dataset_configs) == len(self.maze_datasets)"]
+    modifies = ["self"]
+    ensures = {
+        "C16.update.members": "forall(lambda j: self.maze_datasets[j].cfg.n_mazes == len(self.maze_datasets[j].mazes)"
+        " and self.cfg.maze_dataset_configs[j].n_mazes == len(self.maze_datasets[j].mazes), (0, len(self.maze_datasets)))",
+        "C16.update.count": "self.cfg.n_mazes == len(self)",
+        "C16.update.mazes-kept": _KEPT.replace("entry(self)", "old(self)"),
+    }
+    loops = {
+        0: Loop(head="for dataset in self.maze_datasets", havoc=dict(self=COLLECTION_C),
+                inv={"kept": _KEPT,
+                     "configs-untouched": "forall(lambda j: self.cfg.maze_dataset_configs[j].n_mazes == entry(self).cfg.maze_dataset_configs[j].n_mazes, (0, len(self.cfg.maze_dataset_configs)))",
+                     "done": "forall(lambda j: self.maze_datasets[j].cfg.n_mazes == len(self.maze_datasets[j].mazes), (0, _k))"}),
+        1: Loop(head="for config, dataset in zip(self.cfg.maze_dataset_configs, self.maze_datasets)", havoc=dict(self=COLLECTION_C),
+                inv={"kept": _KEPT,
+                     "members-stay": "forall(lambda j: self.maze_datasets[j].cfg.n_mazes == len(self.maze_datasets[j].mazes), (0, len(self.maze_datasets)))",
+                     "done": "forall(lambda j: self.cfg.maze_dataset_configs[j].n_mazes == len(self.maze_datasets[j].mazes), (0, _k))"}),
+    }
+    exit_lemmas = ["psum_congruence([c.n_mazes for c in self.cfg.maze_dataset_configs], [len(d.mazes) for d in self.maze_datasets], len(self.maze_datasets))"]
     props = ["C16"]
